@@ -82,6 +82,8 @@ type simCluster struct {
 	silent      map[string]bool
 	metaAddr    string
 	metaSil     bool
+	metaHold    chan struct{}          // non-nil: meta lookups are answered only when it is closed
+	metaParked  int                    // lookups waiting for metaHold
 	zkTimes     []time.Time            // when ZooKeeper was asked
 	dialTimes   map[string][]time.Time // when each address was dialled
 	keyRelease  chan struct{}          // closed by a scenario to let "HOLD:" answers go
@@ -312,6 +314,19 @@ func (s *simConn) serve(call hrpc.Call) {
 			if s.addr != c.metaAddr {
 				finish("nsre")
 				deliver(nil, excErr("nsre"))
+				return
+			}
+			if h := c.metaHold; h != nil {
+				// the answer is held back until the scenario lets all pending lookups go at once
+				c.metaParked++
+				finish("held")
+				go func() {
+					<-h
+					c.mu.Lock()
+					resp := c.metaScan(r)
+					c.mu.Unlock()
+					deliver(resp, nil)
+				}()
 				return
 			}
 			if c.metaSil || c.metaSwallow > 0 {
